@@ -82,7 +82,9 @@ func c19ExpectedSize(cs *c03Case, evs []c03Ev) (int64, bool) {
 			continue
 		}
 		if f.failed && cs.cfg.retry {
-			perm := f.last < len(cs.backend) && cs.backend[f.last].outcome == 2
+			// the scripted permanent error is what the call returned unless the timeout sender's deadline cut the call short
+			perm := f.last < len(cs.backend) && cs.backend[f.last].outcome == 2 &&
+				!(cs.cfg.timeout > 0 && cs.backend[f.last].dur >= cs.cfg.timeout)
 			if !perm {
 				return 0, false // back-off or retries exhausted: cannot be told from outside
 			}
